@@ -32,7 +32,7 @@ func enum(tier string) [][]gen.Shape {
 }
 
 var entries = []string{"reader", "reader-discard", "reader-nohandler", "reader-lazyhandler", "reader-ctlhandler", "reader-maxframe", "nextreader", "readmessage", "readdata", "readtext", "readbinary"}
-var bufs = []int{1, 2, 7, 64, 4096, 65536}
+var bufs = []int{1, 2, 7, 64, 4096, 65536, drive.CopyBuf}
 
 // checkStream runs one frame sequence through every entry point under several
 // chunk plans and buffer sizes and compares with the reference reassembly.
